@@ -185,6 +185,18 @@ func init() {
 				fails = append(fails, fail("C12", "int-roundtrip", "ReadInteger does not read back NewIntegerFromInt(%d,%d)", v, n))
 			}
 		}
+		// the results belong to the caller (history): kept across another call, written into, appended to
+		if err == nil {
+			fails = append(fails, privateResultFails("C12", "EncodeIntN", func() []byte { x, _ := data.EncodeIntN(v, n); return x },
+				func() { data.EncodeIntN((v+1)%200, n); data.EncodeIntN(v^1, n) })...)
+			fails = append(fails, privateResultFails("C12", "NewIntegerFromInt", func() []byte {
+				x, e := data.NewIntegerFromInt(v, n)
+				if e != nil || x == nil {
+					return nil
+				}
+				return []byte(*x)
+			}, func() { data.NewIntegerFromInt(v^1, n) })...)
+		}
 		// twins: EncodeIntN and the fixed-width helpers
 		e, err2 := data.EncodeIntN(v, n)
 		if (err == nil) != (err2 == nil) || (err == nil && !bytes.Equal(e, *i)) {
@@ -258,6 +270,8 @@ func init() {
 			fails = append(fails, fail("C19", "twin:NewI2PString/ToI2PString", "differ on %d bytes", len(c)))
 		}
 		if err == nil {
+			fails = append(fails, privateResultFails("C12", "ToI2PString", func() []byte { x, _ := data.ToI2PString(string(c)); return []byte(x) },
+				func() { data.ToI2PString(string(c) + "x"); data.ToI2PString("y") })...)
 			want := append([]byte{byte(len(c))}, c...)
 			// read back from a stream (bytes follow) and from a buffer the string fills exactly
 			for _, x := range [][]byte{{0x3d, 0x01}, {}} {
@@ -317,6 +331,8 @@ func init() {
 		if err == nil && ms >= 0 {
 			if int64(d.Int()) != ms || d.Time().UnixMilli() != ms || bigOf(d[:]).Cmp(big.NewInt(ms)) != 0 {
 				fails = append(fails, fail("C12", "date-roundtrip", "NewDateFromMillis(%d) stores %s (Int()=%d)", ms, hx(d[:]), d.Int()))
+				// the same sentence is part of C15 ("millisecond dates below 2^63, with no wrap-around")
+				fails = append(fails, fail("C15", "date-millis-exact", "NewDateFromMillis(%d) stores %s: not the exact millisecond value", ms, hx(d[:])))
 			}
 			// twin: DateFromTime
 			d2, _ := data.DateFromTime(time.UnixMilli(ms))
